@@ -167,9 +167,12 @@ def _helper_prune(e: PEvent, spec: "WindowSpec") -> tuple[Any, Any] | None:
     """(container, now) of a call of a verified new prune helper, in the caller's terms"""
     from ..paths import linear
 
-    if len(e.targets) != 1 or e.targets[0].kind != "repo" or e.targets[0].func is None:
+    # one repository target; a local that may also hold what `dict.get()` returned adds an unnamed library candidate
+    # (the None of a missing key, excluded by the `is None` test on the path) - not a second prune
+    repo_t = [t for t in e.targets if t.kind == "repo" and t.func is not None]
+    if len(repo_t) != 1 or any(not (t.kind == "lib" and (not t.name or "()." in t.name)) for t in e.targets if t not in repo_t):
         return None
-    info = helper_prune_info(e.targets[0].func)
+    info = helper_prune_info(repo_t[0].func)
     if info is None:
         return None
     X = e.recv if info["container"] == "self" else e.kwargs.get(info["container"])
